@@ -7,7 +7,7 @@ from props import _design as D
 from props._design import describe, nontrivial, unsupported, prepare, CASE_TIMEOUT  # noqa: F401
 
 ID = "C06"
-PROP_FILES = ["Properties/C06.v"]
+PROP_FILES = ["Properties/C06.v", "Properties/C06_pass.v"]
 THEOREMS = ["C06_new_is_rowwise", "C06_selection_commutes", "C06_state_unchanged"]
 ASSUMPTIONS = ["rational arithmetic in the model, float64 in the implementation (tolerance 1e-9 relative)",
                "stateful transforms: center, scale/standardize, poly, bs (their contracts are C14's business)"]
@@ -81,8 +81,22 @@ def gen(rng, tier):
             lv = gen_dm.frame_levels(fr, "f")
             rng.shuffle(lv)
             extra["lv"] = lv
-        cases.append({"formula": f, "frame": fr, "na": "drop", "extra": extra, "kind": "random",
-                      "idx": _multisets(rng, nrows, tier)})
+        case = {"formula": f, "frame": fr, "na": "drop", "extra": extra, "kind": "random",
+                "idx": _multisets(rng, nrows, tier)}
+        if rng.random() < 0.1:
+            # a design built with na_action='pass' keeps its incomplete rows (NaN entries): evaluating those same rows
+            # again gives those same rows, as many as were asked for (pointwise formulas: a stateful transform fitted on
+            # data with a NaN has no parameters to speak of)
+            case["formula"] = rng.choice(["y ~ x + f", "y ~ x:f + w", "y ~ I(x + 1) + g + (x | h)", "y ~ 0 + f:x + (1 | g)",
+                                          "y ~ w + {x * 2} + C(k)"])
+            case["na"] = "pass"
+            case["extra"] = {}
+            case["kind"] = "pass"
+            for col in fr["columns"]:
+                if col["name"] in ("x", "w"):
+                    for r_ in rng.sample(range(nrows), rng.randint(1, max(1, nrows // 4))):
+                        col["values"][r_] = None
+        cases.append(case)
     return cases
 
 
@@ -93,7 +107,7 @@ def key(c):
 def model_cmd(c):
     import core
     news = [dm.frame_sexp(dm.select_rows(c["frame"], idx)) for idx in c["idx"]]
-    return core.sshow(["newdata", c["formula"], dm.frame_sexp(c["frame"]), "drop", dm.extra_sexp(c.get("extra")),
+    return core.sshow(["newdata", c["formula"], dm.frame_sexp(c["frame"]), c.get("na", "drop"), dm.extra_sexp(c.get("extra")),
                        "error", news])
 
 
